@@ -1269,6 +1269,7 @@ func (d *Data) handleMutationsRange(ctx *datastore.VersionedCtx, w http.Response
 		uuidSeq, err := datastore.GetVersionSequence(begUUID, endUUID)
 		if err != nil {
 			server.BadRequest(w, r, err)
+			return
 		}
 		if err := server.StreamMutationsForSequence(w, d.DataUUID(), uuidSeq); err != nil {
 			server.BadRequest(w, r, "unable to write mutations to client: %v", err)
